@@ -4,8 +4,9 @@ import Spine.SchemaLookup
 /-!
 # C18 — wire format and function tables are coherent for every function
 
-Property theorems only, in three modules that build in parallel: this one (G1/G2 table theorems),
-`Spine.Props.C18Shapes` (the command shapes) and `Spine.Props.C18Json` (the data model's JSON). Model: `Spine.Cmd` (the command builders and recognisers of spine-go as table
+Property theorems only, in four modules that build in parallel: this one (G1/G2 table theorems),
+`Spine.Props.C18Shapes` (the command shapes), `Spine.Props.C18Json` (the data model's JSON) and
+`Spine.Props.C18Period` (which time periods the JSON round trip may re-express). Model: `Spine.Cmd` (the command builders and recognisers of spine-go as table
 lookups) over the tables REGENERATED from the tree under test on every run
 (`Spine.Generated.functions` — G1, the function factory executed for every feature type;
 `cmdFields` / `filterFields` — G2, the `eebus` tags as parsed by the repository's own parser;
@@ -35,8 +36,10 @@ Status:
 * NOT covered by a theorem: that the key-level wire model of `Spine.Cmd` is what `Spine.Json.encode` does
   on the schema of `CmdType` (only the key lists are proved equal, `c18_tables_match_schema`; the JSON
   keys of every built command are compared with the real text by the harness, exhaustively);
-  `TimePeriodType`'s custom JSON (monitored by the harness; its arithmetic is C19); `encoding/json`
-  itself (assumption A-json, tied by the differential run `TestWireJson`).
+  `encoding/json` itself (assumption A-json, tied by the differential run `TestWireJson`).
+  `TimePeriodType`'s custom JSON is modelled at the level of shapes in `Spine.PeriodJson` (theorems in
+  `Spine.Props.C18Period`, compared with the real (un)marshaler for every period in every generated
+  value); parsing, formatting and rounding of the time strings are C19.
 -/
 namespace Spine.Props.C18
 open Spine.Json Spine.Generated Spine.Cmd
